@@ -213,7 +213,24 @@ class LibMixin:
         return self.apply_contract(C.CONTRACTS[d], pos, kw, st, exc, site="next")
 
     def bi_map(self, pos, kw, st, exc, e):
+        if len(pos) == 2 and pos[0].ty.kind == "func" and pos[0].py == "str" and pos[1].ty.kind == "list" \
+                and pos[1].ty.args[0].kind != "unknown" and len(pos[1].ts) == 1:
+            return self.seq_texts(pos[1], st)
         return self.opaque("map", pos)
+
+    def seq_texts(self, xs, st):
+        """map(str, xs) / [str(x) for x in xs]: the sequence T with len(T) == len(xs) and T[i] == str(xs[i])"""
+        elty = xs.ty.args[0]
+        r = self.uf("seqtext_" + elty.kind, [xs.ts[0]], smt.seq(STR))
+        st.assume(smt.Eq(smt.Len(r), smt.Len(xs.ts[0])))
+        self.qcount += 1
+        kn = "k!st%d" % self.qcount
+        kq = T(kn, INT)
+        item = SV(elty, [smt.At(xs.ts[0], kq)])
+        body = smt.Implies(smt.And(smt.Le(smt.Int(0), kq), smt.Lt(kq, smt.Len(xs.ts[0]))),
+                           smt.Eq(smt.At(r, kq), self.to_text(item, st)))
+        st.assume(smt.Forall([(kn, INT)], body))
+        return SV(ListT(TSTR), [r])
 
     bi_sorted = bi_map
     bi_zip = bi_map
